@@ -638,6 +638,7 @@ def run(res: Results, idx: Index, tier: str) -> None:
     res.rule("R-C08h", "chain folds refresh the nodes they re-route, or admit only operators whose shape is re-derived elsewhere", floor=2)
     rule_h(res, idx)
     res.rule("R-C08k", "size-1 constants are left out of the refresh's broadcast merge only when their rank cannot lift the result's rank", floor=1)
+    rule_i(res, idx)
     rule_k(res, idx)
     rule_l(res, idx)
     rule_m(res, idx)
@@ -743,6 +744,13 @@ def rule_h(res: Results, idx: Index) -> None:
 
 
 # ---------------------------------------------------------------------------------------------- R-C08i
+# override sites for which an input is known where the declared extent differs from run time (triage/witnesses/c08_axis0_override_family.py)
+CONFIRMED_OVERRIDE_SITES = {
+    "jax2onnx/plugins/jax/lax/scan.py::_restamp_axis0::axis-overwrite::dims[0]",
+    "jax2onnx/plugins/jax/lax/broadcast_in_dim.py::BroadcastInDimPlugin.lower::axis-overwrite::target_shape_dims[0]",
+}
+
+
 def rule_i(res: Results, idx: Index, rid: str = "R-C08i") -> None:
     """The static shape JAX assigns to an equation's result is its output aval's shape.  A stamping helper that starts from
     `_aval_shape_tuple(out_var)` and then replaces one of its dimensions by a quantity that does not come from the aval (a
@@ -776,7 +784,47 @@ def rule_i(res: Results, idx: Index, rid: str = "R-C08i") -> None:
                     res.violation(rid, f"{m.rel}:{f0.stmt.lineno}", key, f"`{name}` starts as the output aval's shape and is then rebuilt as `{src(f0.value, 50)}` from the parameter {sorted((names_in(f0.value) - {name}) & params)}: the stamped shape is no longer the shape JAX computed for this equation (an axis-0 extent taken from loop context is declared on results it has nothing to do with)", fi.qualname)
                 else:
                     res.ok(rid, site, key, "the stamped shape is the output aval's shape", fi.qualname)
+    # second form of the same defect: one element of a shape list that reaches a stamp is overwritten by a loop-context
+    # "override" (`get_axis0_override(...)`, `_static_loop_extent_axis0`, a parameter called override)
+    n2 = 0
+    for m in idx.product_modules():
+        if "/plugins/" not in m.rel or ".examples" in m.name:
+            continue
+        for fi in m.funcs.values():
+            stamps = [c for c in walk_no_nested(fi.node) if isinstance(c, ast.Call) and (call_name(c) or "").split(".")[-1] == "_stamp_type_and_shape" and len(c.args) >= 2]
+            if not stamps:
+                continue
+            du = defuse(fi.node)
+            for nm, ds in du.defs.items():
+                for d in ds:
+                    if d.kind != "setitem" or d.value is None:
+                        continue
+                    tgt = d.stmt.targets[0] if isinstance(d.stmt, ast.Assign) else None
+                    if not (isinstance(tgt, ast.Subscript) and isinstance(tgt.slice, (ast.Constant, ast.Name, ast.BinOp, ast.UnaryOp))):
+                        continue
+                    if isinstance(tgt.slice, ast.Constant) and not isinstance(tgt.slice.value, int):
+                        continue      # dict entries (conv_kwargs['pads'] = ...)
+                    if not any(nm in (du.closure(names_in(c.args[1])) | names_in(c.args[1])) for c in stamps):
+                        continue
+                    n2 += 1
+                    key = f"{m.rel}::{fi.qualname}::axis-overwrite::{nm}[{src(tgt.slice, 12)}]"
+                    site = f"{m.rel}:{d.stmt.lineno}"
+                    # the assigned value itself is the override (a name / int(name) that says so); derived quantities such as
+                    # pad amounts are not extents taken from loop context
+                    v0 = d.value
+                    while isinstance(v0, ast.Call) and (call_name(v0) or "") in ("int", "cast") and v0.args:
+                        v0 = v0.args[-1]
+                    via = v0.id if isinstance(v0, ast.Name) and "override" in v0.id.lower() else None
+                    if via and key not in CONFIRMED_OVERRIDE_SITES:
+                        res.unresolved(rid, site, key, f"`{src(d.stmt, 50)}` declares an extent taken from loop context (`{via}`) instead of the equation's avals; no input is known for which it differs from the "
+                                       "extent JAX computed (the confirmed sites of this family are listed in CONFIRMED_OVERRIDE_SITES)", fi.qualname)
+                    elif via:
+                        res.violation(rid, site, key, f"`{src(d.stmt, 50)}` overwrites one extent of a shape that is then stamped with a loop-context override (`{via}`): the declared extent is not the one JAX "
+                                      "computed for this equation (stacked scan outputs are declared with the per-step extent, a broadcast to a symbolic batch is fixed to the override)", fi.qualname)
+                    else:
+                        res.ok(rid, site, key, "the overwritten extent derives from the equation's own parameters / avals", fi.qualname)
     res.analysed["aval_shape_stamping_helpers"] = n
+    res.analysed["stamped_shape_element_overwrites"] = n2
 
 
 # ---------------------------------------------------------------------------------------------- R-C08j
@@ -851,7 +899,7 @@ def rule_k(res: Results, idx: Index) -> None:
     """In `_refresh_elementwise_output_shape` the output shape is the broadcast of the operand shapes.  An operand may be
     left out of that merge only when it cannot influence the result: `_is_scalar_const_value` is true for ANY size-1
     constant, also one of higher rank than the other operands ((3,) with a (1,1) constant broadcasts to (1,3)), so a skip
-    guarded by that predicate must also bound the constant's rank (`len(dims) <= 1`, `== 0`, `not dims`)."""
+    guarded by that predicate must also require rank 0 (`len(dims) == 0`, `not dims`): a (1,) constant next to a rank-0 operand gives (1,)."""
     f = idx.find_func(OPT, "_refresh_elementwise_output_shape")
     if f is None:
         raise AnalysisError("_refresh_elementwise_output_shape not found")
@@ -867,13 +915,21 @@ def rule_k(res: Results, idx: Index) -> None:
         res.ok("R-C08k", f"{OPT}:{lp.lineno}", key, "no operand with a known shape is left out of the broadcast merge", f.qualname)
         return
     for st in skips:
-        rank_bound = any(isinstance(c, ast.Compare) and any(isinstance(x, ast.Call) and (call_name(x) or "") == "len" for x in ast.walk(c)) and any(isinstance(k, ast.Constant) and k.value in (0, 1) for k in c.comparators)
-                         and isinstance(c.ops[0], (ast.LtE, ast.Lt, ast.Eq)) for c in ast.walk(st.test)) or any(isinstance(c, ast.Attribute) and c.attr in ("ndim", "rank") for c in ast.walk(st.test))
+        def _rank0(c: ast.AST) -> bool:
+            # len(dims) == 0 / len(dims) < 1 / len(dims) <= 0 / not dims : the constant has rank 0
+            if isinstance(c, ast.Compare) and len(c.ops) == 1 and any(isinstance(x, ast.Call) and (call_name(x) or "") == "len" for x in ast.walk(c.left)) and isinstance(c.comparators[0], ast.Constant):
+                k, o = c.comparators[0].value, c.ops[0]
+                return (isinstance(o, ast.Eq) and k == 0) or (isinstance(o, ast.Lt) and k == 1) or (isinstance(o, ast.LtE) and k == 0)
+            if isinstance(c, ast.Compare) and len(c.ops) == 1 and isinstance(c.left, ast.Attribute) and c.left.attr in ("ndim", "rank") and isinstance(c.comparators[0], ast.Constant):
+                k, o = c.comparators[0].value, c.ops[0]
+                return (isinstance(o, ast.Eq) and k == 0) or (isinstance(o, ast.Lt) and k == 1) or (isinstance(o, ast.LtE) and k == 0)
+            return isinstance(c, ast.UnaryOp) and isinstance(c.op, ast.Not) and isinstance(c.operand, ast.Name) and "dim" in c.operand.id
+        rank_bound = any(_rank0(c) for c in ast.walk(st.test))
         if rank_bound:
-            res.ok("R-C08k", f"{OPT}:{st.lineno}", key, f"`{src(st.test, 60)}`: size-1 constants are skipped only up to rank 1", f.qualname)
+            res.ok("R-C08k", f"{OPT}:{st.lineno}", key, f"`{src(st.test, 60)}`: only rank-0 constants are left out of the merge", f.qualname)
         else:
-            res.violation("R-C08k", f"{OPT}:{st.lineno}", key, f"`{src(st.test, 60)}` leaves every size-1 constant out of the broadcast merge, whatever its rank: for `maximum(x[3], c[1,1])` the output is declared "
-                          "`[3]` although the operator returns shape (1,3) — also when that value is a graph output", f.qualname)
+            res.violation("R-C08k", f"{OPT}:{st.lineno}", key, f"`{src(st.test, 60)}` leaves size-1 constants of rank >= 1 out of the broadcast merge: for `maximum(x[3], c[1,1])` the output is declared "
+                          "`[3]` although the operator returns (1,3), for `sum(x) + c[1]` it is declared rank 0 although the operator returns (1,) — also when that value is a graph output", f.qualname)
 
 
 # ---------------------------------------------------------------------------------------------- R-C08l
